@@ -358,6 +358,39 @@ pub fn run(ctx: &mut Ctx) {
         }
     }
     ctx.extra.insert("small_trees_with_one_invalid_block".into(), json!(invalid_cases));
+    // chains that outgrow the purge horizon (2 x genesis period) with 1..3 extra blocks stored at one
+    // early height: when that height is purged, tip, index and flags must keep describing the chain
+    let mut purge_cases = 0u64;
+    for gp in [4u64, 5] {
+        for h in 1..=3usize {
+            for extra in 1..=3usize {
+                let ncfg = NodeCfg { gp, heartbeat: 100, social_stake: 0, loading_completed: true, prune: 8 };
+                let mut blocks = vec![];
+                let mk = |i: usize, parent: Option<u16>, dt: u32| BlockSpec { parent, dt, gt: i % 2 == 0, creator: (i % 3) as u8, miner: 1, txs: vec![], bad_tx: None, corrupt: None, back: None };
+                for i in 0..h {
+                    blocks.push(mk(i, None, 250));
+                }
+                // siblings of the block at height h+1 (children of built index h - 1 + 1)
+                for e in 0..extra {
+                    let len = 1 + h + e;
+                    blocks.push(mk(50 + e, Some(sel_for(h, len)), 260 + 7 * e as u32));
+                }
+                // the chain continues from the block at height h+1 (built index h)... i.e. from the last main block
+                let total = 2 * gp as usize + 4;
+                for i in 0..total {
+                    let len = 1 + h + extra + i;
+                    let parent = if i == 0 { Some(sel_for(h, len)) } else { None };
+                    blocks.push(mk(h + i, parent, 250));
+                }
+                let case = Case { hist: HistSpec { ncfg, treasury: 0, issuance: vec![(0, 5_000_000), (1, 7_000_000)], blocks, gt_policy: true }, order: vec![], dups: vec![] };
+                purge_cases += 1;
+                for (k, w) in eval_case(ctx, &case, true) {
+                    ctx.violation(&k, w, json!({"check": "purge_of_a_height_with_siblings", "case": case}));
+                }
+            }
+        }
+    }
+    ctx.extra.insert("purge_of_a_height_with_siblings_cases".into(), json!(purge_cases));
 
     // random trees
     let cases = ctx.tier.pick(300u32, 12_000);
